@@ -87,7 +87,7 @@ class Real:
 
     _n = 0
 
-    def __init__(self, with_accessory: bool = False):
+    def __init__(self, with_accessory: bool = False, state_file_from: Optional[str] = None):
         from pyhap.accessory_driver import AccessoryDriver
 
         _quiet()
@@ -105,7 +105,10 @@ class Real:
 
         self.driver.async_persist = sync_persist
         self.state = self.driver.state
-        if with_accessory:  # pair-verify's log line for an unknown controller names the accessory
+        if state_file_from is not None:  # a restart: the file of the previous run is there
+            shutil.copyfile(state_file_from, self.path)
+        if with_accessory:  # pair-verify's log line for an unknown controller names the accessory;
+            # add_accessory loads the state file if it exists, else writes one
             from pyhap.accessory import Accessory
 
             self.driver.add_accessory(Accessory(self.driver, "Verif"))
